@@ -61,6 +61,18 @@ CLAIMED = {
              "(F9a-g) and are excluded from the delta comparison by syntactic class, each probed on every run.",
         technique="Lean 4 proof (scanner lemmas, kernel-checked complete tables) + three-way lexer correspondence",
         design="§4 C14"),
+    "C19": dict(
+        text="Lean theorems over the fuzzer's unbounded payloads: for every u128 value the spellings the fuzzer formats "
+             "(`to_string`, `{:x}`, `{:X}`, `{:b}`), bare and with each of the eleven suffixes, followed by a non-extending "
+             "character are lexed as proper tokens of exactly that value; the fixed spellings are a complete kernel-checked "
+             "table; the size bound follows from the loop condition. Real outputs (exactly as `penne fuzz tokens` produces "
+             "them) are lexed by both real lexers and the reference lexer and every lexeme is matched against the shapes the "
+             "theorems cover. Partial: string/char pieces, identifiers and whole-output composition are not theorems.",
+        note="Trusted: Lean kernel, the reference lexer's tie to both real lexers (C14 run), the shape regexes used as membership "
+             "certificate, the harness calling fill_to_capacity_with_tokens with the CLI's arguments. Randomness comes from the "
+             "generator's own thread RNG (not seedable without a hook): the replay of a failure is the output text itself.",
+        technique="Lean 4 proof (per-piece, all payloads) + certificate-checked correspondence on real fuzzer outputs",
+        design="§4 C19"),
 }
 
 NOT_APPLICABLE = {}
